@@ -11,6 +11,11 @@ ENGINE = "hiten/algorithms/poincare/centermanifold/engine.py"
 CMBACK = "hiten/algorithms/poincare/centermanifold/backend.py"
 CMINTF = "hiten/algorithms/poincare/centermanifold/interfaces.py"
 
+ORBSVC = "hiten/algorithms/types/services/orbits.py"
+CMSVC = "hiten/algorithms/types/services/center.py"
+MANSVC = "hiten/algorithms/types/services/manifold.py"
+BASESVC = "hiten/algorithms/types/services/base.py"
+
 MUTANTS = [
     # ------------------------------------------------------------------ C06
     {"id": "c06-shared-row", "property": "C06", "what": "_poly_mul accumulates into one shared scratch row (classic lost update)",
@@ -87,4 +92,17 @@ MUTANTS = [
     {"id": "c14-feedback-unenforced-ok", "property": "C14", "expect": "quiet",
      "what": "NON-ALARM: gather order changed (futures consumed in submission order instead of completion order); the set of rows is unchanged",
      "edits": [(ENGINE, "            for fut in as_completed(futures):\n", "            for fut in futures:\n")]},
+    # ------------------------------------------------------------------ C20
+    {"id": "c20-period-setter-no-reset", "property": "C20", "what": "the orbit period setter no longer clears the dynamics memo",
+     "edits": [(ORBSVC, "            self._trajectory = None\n            self._stability_info = None\n            self.reset()\n", "            self._trajectory = None\n            self._stability_info = None\n")]},
+    {"id": "c20-stability-info-kept", "property": "C20", "what": "the period setter keeps _stability_info",
+     "edits": [(ORBSVC, "            self._trajectory = None\n            self._stability_info = None\n            self.reset()\n", "            self._trajectory = None\n            self.reset()\n")]},
+    {"id": "c20-propagate-key-without-order", "property": "C20", "what": "propagate memo key omits the integration order",
+     "edits": [(ORBSVC, 'cache_key = self.make_key("propagate", steps, method, order)', 'cache_key = self.make_key("propagate", steps, method)')]},
+    {"id": "c20-degree-setter-keeps-hamsys", "property": "C20", "what": "the centre-manifold degree setter keeps the cached Hamiltonian system",
+     "edits": [(CMSVC, "            self._degree = value\n            self._hamsys = None\n", "            self._degree = value\n")]},
+    {"id": "c20-manifold-marker-not-restored", "property": "C20", "what": "the manifold's orbit-state marker is created lazily (not restored by load: the stored result is dropped by a round trip)",
+     "edits": [(MANSVC, "        self._manifold_result = None\n        self._orbit_state_key = None\n", "        self._manifold_result = None\n")]},
+    {"id": "c20-make-key-drops-last-argument", "property": "C20", "what": "make_key drops its last argument",
+     "edits": [(BASESVC, "        hashable_args = [_make_hashable(arg) for arg in args]", "        hashable_args = [_make_hashable(arg) for arg in args[:-1]] if len(args) > 2 else [_make_hashable(arg) for arg in args]")]},
 ]
